@@ -261,6 +261,9 @@ func pickLen(r *u.Rng, small bool) int {
 	case 1, 2, 3, 4:
 		return r.Range(1, 40)
 	case 5, 6:
+		if small {
+			return r.Range(40, 120)
+		}
 		return r.Range(40, 300)
 	case 7, 8:
 		if small {
@@ -269,7 +272,7 @@ func pickLen(r *u.Rng, small bool) int {
 		return r.Range(300, 1400)
 	default:
 		if small {
-			return r.Range(300, 700)
+			return r.Range(300, 450)
 		}
 		return r.Range(1400, 4000)
 	}
